@@ -210,5 +210,9 @@ example : (match Gen.plZLabels (exOps true) none (some "z") false exZs with
     | .ok it => takeLabels 3 it | .error _ => none) = some [some "a", some "b", some "c"] := by decide
 example : (match Gen.plZLabels (exOps true) (some ["p", "q", "r"]) (some "z") false exZs with
     | .ok it => takeLabels 3 it | .error _ => none) = some [some "p", some "q", some "r"] := by decide
+-- the grid of panels of the translated `calc_row_col_datasets`
+example : (Gen.plRowCol (exOps true) { ds := exDS } (some "z") none).map
+    (fun g => (g.1.map (·.map (·.map fun p => (p.1, p.2.1))), g.2)) = some ([[[("z", 0)]], [[("z", 1)]], [[("z", 2)]]], 3, 1) := by decide
+example : (Gen.plRowCol (exOps true) { ds := exDS } (some "x") (some "z")).map (fun g => g.2) = some (2, 3) := by decide
 
 end PlotPrep
